@@ -10,6 +10,7 @@ import (
 	"os"
 	"runtime"
 	"sort"
+	"strconv"
 	"strings"
 	"sync"
 	"sync/atomic"
@@ -323,7 +324,16 @@ var engines = map[string]func(e *env){}
 // holds a real lock across a call-out can still block a worker at OS level. A run that makes no progress
 // for hangAfter of wall time ends the worker with a diagnostic (the driver turns that into exit 2, an
 // internal error, never a VIOLATION).
-const hangAfter = 240 * time.Second
+var hangAfter = 240 * time.Second
+
+func init() {
+	// self-test of the watchdog / restart path only (tools/selftest_watchdog.sh)
+	if v := os.Getenv("VERIF_HANG_AFTER_S"); v != "" {
+		if n, err := strconv.Atoi(v); err == nil && n > 0 {
+			hangAfter = time.Duration(n) * time.Second
+		}
+	}
+}
 
 var (
 	execStartNs atomic.Int64 // wall clock at the start of the execution in progress (0: idle)
@@ -354,6 +364,15 @@ func execute(t *testing.T, sc *Scenario, trace bool) (out *RunOut) {
 	execStartNs.Store(time.Now().UnixNano())
 
 	defer execStartNs.Store(0)
+
+	// self-test hook: stall once (the marker file makes the restarted worker run normally)
+	if f := os.Getenv("VERIF_FAKE_STALL_ONCE"); f != "" && os.Getenv("VERIF_WORKER") == "0" {
+		if _, err := os.Stat(f); err != nil {
+			_ = os.WriteFile(f, []byte("stalled"), 0o600)
+
+			time.Sleep(time.Hour)
+		}
+	}
 
 	defer func() {
 		if r := recover(); r != nil {
